@@ -73,7 +73,7 @@ static const char *read_name[] = {"Tensor out = view", "out = view + Z", "Tensor
 
 // ---- READ thunk: all read variants for one index set; out has NREAD * R elements ----------------
 template <C19_TPARAMS>
-void rd_thunk(const T *par, const int64_t *i0, const int64_t *i1, int num, const T *z, T *out) {
+void rd_thunk(const T *par, const int64_t *i0, const int64_t *i1, int num, const T *z, T *out) { vf::ArmedThunk vf_armed_;
   using P = tensor_of_t<T, M, N>; using IT0 = typename it0_of<I0, FORM, K0, K1>::type; using IT1 = Tensor<I1, (K1 ? K1 : 1)>;
   using Res = tensor_of_t<T, R0, R1>;
   constexpr size_t R = R1 ? R0 * R1 : R0;
@@ -102,7 +102,7 @@ constexpr int NRK = 6;
 static const char *rk_name[] = {"scalar", "tensor", "expression R+R2", "view B(it)", "int scalar", "expression that needs evaluation (trans(trans(R)) / I % R)"};
 template <C19_TPARAMS>
 void wr_thunk(void *slot, const T *par, const T *bpar, const int64_t *i0, const int64_t *i1, int num, int op, int rk,
-              T c, const T *r, const T *r2, T *outpar) {
+              T c, const T *r, const T *r2, T *outpar) { vf::ArmedThunk vf_armed_;
   using P = tensor_of_t<T, M, N>; using IT0 = typename it0_of<I0, FORM, K0, K1>::type; using IT1 = Tensor<I1, (K1 ? K1 : 1)>;
   using Res = tensor_of_t<T, R0, R1>;
   constexpr size_t R = R1 ? R0 * R1 : R0;
@@ -125,7 +125,7 @@ void wr_thunk(void *slot, const T *par, const T *bpar, const int64_t *i0, const 
 // ---- MASK thunk ---------------------------------------------------------------------------------
 // rk 0: scalar   1: tensor   2: expression R + R2   3: expression c + A (the parent itself, as in the test-suite)   4: int scalar
 template <class T, size_t... Shape>
-void mk_thunk(void *slot, const T *par, const unsigned char *mask, int op, int rk, T c, const T *r, const T *r2, T *outpar) {
+void mk_thunk(void *slot, const T *par, const unsigned char *mask, int op, int rk, T c, const T *r, const T *r2, T *outpar) { vf::ArmedThunk vf_armed_;
   using P = Tensor<T, Shape...>; using B = Tensor<bool, Shape...>;
   P &A = *new (slot) P; put(A, par, P::size());
   B m; for (size_t i = 0; i < P::size(); ++i) m.data()[i] = mask[i] != 0;
